@@ -268,7 +268,8 @@ func classifyGenErr(msg string) string {
 		return "empty-match"
 	case strings.Contains(msg, "Needs backtracking"):
 		return "needs-backtracking"
-	case strings.Contains(msg, "exceeds \\uff") || strings.Contains(msg, "scanBytes"):
+	case strings.Contains(msg, "exceeds \\uff") || strings.Contains(msg, "scanBytes") || strings.Contains(msg, "unknown unicode character class"):
+		// (\p{…} is only known in rune mode)
 		return "not-byte-compatible"
 	case strings.Contains(msg, "must be applicable in the same set of start conditions"):
 		return "class-start-conditions"
